@@ -25,6 +25,7 @@ class Promise(Generic[T]):
         self._error: Optional[Exception] = None
         self._resolvers: list[Callable[[T], S]] = []
         self._rejectors: list[Callable[[Exception], S]] = []
+        self._notifying = False
 
         if func:
             try:
@@ -86,23 +87,29 @@ class Promise(Generic[T]):
         """
         Notify all listeners of the promise.
         """
-        if self.is_pending:
-            # If promise is still pending, do nothing.
+        if self.is_pending or self._notifying:
+            # If promise is still pending, do nothing. If callbacks are being notified right
+            # now (a callback registered a further callback), the loop below picks up the new
+            # callback after the ones registered before it.
             return
-        elif self.is_fulfilled:
-            # If promise is resolved, notify new resolvers. Discard rejectors.
-            resolvers = self._resolvers
-            self._resolvers = []
-            self._rejectors.clear()
-            for resolver in resolvers:
-                resolver(cast(T, self._value))
-        else:
-            # If promise is rejected, notify new rejectors. Discard resolvers.
-            self._resolvers.clear()
-            rejectors = self._rejectors
-            self._rejectors = []
-            for rejector in rejectors:
-                rejector(cast(Exception, self._error))
+
+        self._notifying = True
+        try:
+            while True:
+                if self.is_fulfilled:
+                    # If promise is resolved, notify new resolvers. Discard rejectors.
+                    self._rejectors.clear()
+                    if not self._resolvers:
+                        break
+                    self._resolvers.pop(0)(cast(T, self._value))
+                else:
+                    # If promise is rejected, notify new rejectors. Discard resolvers.
+                    self._resolvers.clear()
+                    if not self._rejectors:
+                        break
+                    self._rejectors.pop(0)(cast(Exception, self._error))
+        finally:
+            self._notifying = False
 
     def then(
         self,
